@@ -149,6 +149,9 @@ def run(ctx, prog):
         return None
     A.require('parse_jwk/nonce-kid-issuer-scope', okp, r_pj, replay=REPLAY)
     A.no_panic('parse_jwk/no-panic', paths, replay=REPLAY)
+    # the credential handed back is rebuilt from the claims only after every member repeated inside vc agreed with them
+    import c07
+    c07.credential_consistency(A, prog, REPLAY)
 
     cl = [g for g in prog.funcs if re.search(r'jwt_credential_validator::<impl at [^>]*>::parse_jwk::\{closure#\d+\}$', g.name)
           and g.ret_ty == 'bool']
